@@ -94,6 +94,7 @@ def run(m, rep, tier):
         checked = {c.ref for c in calls}
         pv = Prover(f)
         bad = []
+        notes = []
         nsub = 0
         for g in f.all_insts():
             if g.op != 'getelementptr':
@@ -126,13 +127,34 @@ def run(m, rep, tier):
                 # a do/while body: entered from its guard and from its own loop test, each with its own reads of the index
                 ok = all(below(pv.fc.edge_facts(p, g.block), p) for p in g.block.pred)
             if not ok:
+                # is the cursor compared with a bucket count at all on the way here?  If so the bound may rest on a loop
+                # invariant this rule does not derive (a trip count min(count - cursor, quota)): no verdict
+                ii = f.get(idx) if isinstance(idx, str) else None
+                loc_key = resolve_addr(f, ii.o[0]).key() if (ii is not None and ii.op == 'load') else None
+                related = False
+                from ..facts import edge_atoms
+                cands = list(pv.fc.block_facts(g.block))
+                for b0 in f.blocks:
+                    if len(b0.succ) >= 2 and g.block in f.reachable_from(b0):
+                        for sx in b0.succ:
+                            cands += list(edge_atoms(f, b0, sx)[0])
+                for (op, x, y) in cands:
+                    if op not in ('ult', 'ule'):
+                        continue
+                    xi, yi = f.get(x) if isinstance(x, str) else None, f.get(y) if isinstance(y, str) else None
+                    if xi is not None and xi.op == 'load' and loc_key is not None and resolve_addr(f, xi.o[0]).key() == loc_key \
+                            and yi is not None and yi.op == 'load' and resolve_addr(f, yi.o[0]).path in ('bucket.count', 'bucket.rh.count'):
+                        related = True
+                if related:
+                    notes.append('NOT DECIDED: subscript at %s (the cursor is compared with the bucket count earlier, the bound inside the loop is not derived)' % g.loc())
+                    continue
                 bad.append('bucket array subscript at %s uses %s, which is neither a checked hash result nor below a bucket count' % (g.loc(), f.vname(idx)))
         if not calls:
             bad.append('no call through a hash-function pointer reaches this entry point')
         if bad:
             b2.violation(name, '; '.join(bad), '%s:%d' % (f.file.replace(m.repo + '/', ''), f.line), {'subscripts': nsub})
         else:
-            b2.ok(name, '%d bucket subscripts, %d checked hash calls' % (nsub, len(calls)))
+            b2.ok(name, ('%d bucket subscripts, %d checked hash calls' % (nsub, len(calls))) + ('; ' + '; '.join(notes[:2]) if notes else ''))
 
     b3 = rep.rule('B3', 'cstl_hash_div returns urem(k, m)', floor=1)
     f = m.pfn('cstl_hash_div')
